@@ -201,6 +201,9 @@ pub fn run_case(c: &GCase, cache: &ConfirmCache) -> CaseReport {
                 for (_, d) in ex.unsat_samples.iter().take(5) {
                     todo.push((d.script.clone(), false, d.tag.clone()));
                 }
+                for (d, sat) in ex.must_confirm.iter() {
+                    todo.push((d.script.clone(), *sat, d.tag.clone()));
+                }
                 for (script, model_sat, tag) in todo {
                     let real = conf.run(&c.g, &script);
                     rep.confirmed += 1;
